@@ -284,6 +284,9 @@ class Types:
         self.extra = cfg.get('types', {})   # regex -> ctype overrides
         self.value_structs = set(cfg.get('value_structs', []))
         self.enum_ctypes = {}
+        self.oomd_structs = set()
+        self.pair_elems = {}
+        self.assoc_iter = {}
 
     def note(self, ct, kind, elem=None):
         if ct not in self.kinds:
@@ -292,6 +295,10 @@ class Types:
             if elem is not None:
                 self.elem[ct] = elem
         return ct
+
+    def is_oomd_struct(self, ct):
+        """a struct generated from an oomd record (not a library wrapper such as opt_/vec_)"""
+        return self.kinds.get(ct) == 'value' and ct in self.oomd_structs
 
     def kind(self, ct):
         if ct.endswith('*'):
@@ -318,6 +325,15 @@ class Types:
                 return self.note(ct, self.cfg.get('type_kinds', {}).get(ct, 'handle'))
         if t in SCALARS:
             return self.note(SCALARS[t], 'scalar')
+        for suf in ('::pointer', '::reference'):
+            if t.endswith(suf) and t[:-len(suf)].endswith('>'):
+                base = self.ctype(t[:-len(suf)])
+                e = self.elem.get(base)
+                if e is None:
+                    raise Unsupported('member type %r' % t)
+                if suf == '::reference' or self.kind(e) == 'handle':
+                    return e
+                return e + ' *'
         for suf in ('::iterator', '::const_iterator'):
             if t.endswith(suf) and t[:-len(suf)].endswith('>'):
                 base = self.ctype(t[:-len(suf)])
@@ -326,8 +342,8 @@ class Types:
                     return self.note('vecit_' + sanitize(e), 'value', e)
                 if base.startswith('deq_'):
                     return self.note('deqit_' + sanitize(e), 'value', e)
-                if base.startswith('umap_') or base.startswith('uset_'):
-                    return self.note('mapit_' + base, 'value', e)
+                if base in self.assoc_iter:
+                    return self.assoc_iter[base]
                 raise Unsupported('iterator of %r' % base)
         if t.endswith('*'):
             inner = self.ctype(t[:-1])
@@ -368,7 +384,7 @@ class Types:
             return self.note('deq_' + sanitize(e), 'value', e)
         if name == 'std::reference_wrapper':
             e = self.ctype(args[0])
-            if self.kind(e) == 'value' and not e.endswith('*'):
+            if self.is_oomd_struct(e):
                 return e + ' *'      # a reference to a value object: aliasing is kept
             return e
         if name == 'std::unique_ptr' or name == 'std::shared_ptr':
@@ -380,15 +396,22 @@ class Types:
             return self.note('str_t', 'handle')
         if name in ('std::unordered_set', 'std::set'):
             e = self.ctype(args[0])
-            return self.note('uset_' + sanitize(e), 'handle', e)
+            ct = self.note('uset_' + sanitize(e), 'handle', e)
+            self.assoc_iter[ct] = self.note('mapit_' + sanitize(e), 'value', e)
+            return ct
         if name in ('std::unordered_map', 'std::map'):
             k = self.ctype(args[0])
             v = self.ctype(args[1])
-            return self.note('umap_' + sanitize(k) + '_' + sanitize(v), 'handle', v)
+            pr = self.ctype('std::pair<%s, %s>' % (args[0], args[1]))
+            ct = self.note('umap_' + sanitize(k) + '_' + sanitize(v), 'handle', v)
+            self.assoc_iter[ct] = self.note('mapit_' + sanitize(pr), 'value', pr)
+            return ct
         if name == 'std::pair':
             a = self.ctype(args[0])
             b = self.ctype(args[1])
-            return self.note('pair_' + sanitize(a) + '_' + sanitize(b), 'value')
+            ct = 'pair_' + sanitize(a) + '_' + sanitize(b)
+            self.pair_elems[ct] = (a, b)
+            return self.note(ct, 'value')
         if name == 'Oomd::SystemMaybe':
             e = self.ctype(args[0])
             return self.note('maybe_' + sanitize(e), 'value', e)
@@ -404,6 +427,7 @@ class Types:
             e = e[:-2] if e.endswith(' *') else e
             return self.note('vecit_' + sanitize(e), 'value', e)
         if name in ('std::__detail::_Node_iterator', 'std::__detail::_Node_const_iterator',
+                    'std::__detail::_Node_iterator_base',
                     'std::_Rb_tree_iterator', 'std::_Rb_tree_const_iterator'):
             e = self.ctype(args[0])
             return self.note('mapit_' + sanitize(e), 'value', e)
@@ -433,6 +457,7 @@ class Types:
             self.enum_ctypes[ct] = q
             return self.note(ct, 'scalar')
         if q in self.value_structs:
+            self.oomd_structs.add(ct)
             return self.note(ct, 'value')
         return self.note(ct, 'handle')
 
@@ -707,6 +732,22 @@ class FnEmitter:
                 # floating arithmetic goes through F_* so that it can be verified either
                 # bit-precisely or as uninterpreted functions (sound over-approximation)
                 return 'F_%s_%s(%s, %s)' % (FOPS[op], FSUF[ct], self.expr(a), self.expr(b))
+        ISUF = {'int64_t': 'i64', 'uint64_t': 'u64', 'int': 'i32', 'uint32_t': 'u32'}
+        if n['kind'] == 'BinaryOperator' and op in ('/', '%', '*'):
+            ct = self.ct(n)
+            if ct in ISUF:
+                lb = self.strip_casts(b)
+                la = self.strip_casts(a)
+                lit_b = lb.get('kind') == 'IntegerLiteral'
+                lit_a = la.get('kind') == 'IntegerLiteral'
+                pow2 = lit_b and int(lb['value']) > 0 and (int(lb['value']) & (int(lb['value']) - 1)) == 0
+                hard = (op in ('/', '%') and not pow2) or (op == '*' and not lit_a and not lit_b)
+                if hard:
+                    # division / remainder by a non-power-of-two and products of two variables go
+                    # through I_* so they can be verified as uninterpreted functions (SAT cannot
+                    # decide equivalences of dividers / multipliers) or bit-precisely
+                    nm = {'/': 'DIV', '%': 'MOD', '*': 'MUL'}[op]
+                    return 'I_%s_%s(%s, %s)' % (nm, ISUF[ct], self.expr(a), self.expr(b))
         if n['kind'] == 'CompoundAssignOperator' and op[:-1] in FOPS:
             rt = n.get('computeResultType', {})
             rct = self.ty.ctype_of(rt) if rt else self.ct(n)
@@ -721,6 +762,14 @@ class FnEmitter:
                 return '(%s = %s)' % (ea, val)
         return '(%s %s %s)' % (self.expr(a), op, self.expr(b))
     e_CompoundAssignOperator = e_BinaryOperator
+
+    def strip_casts(self, n):
+        while n.get('kind') in PASS_THROUGH or n.get('kind') in ('ImplicitCastExpr', 'CStyleCastExpr', 'CXXStaticCastExpr', 'CXXFunctionalCastExpr'):
+            ks = kids(n)
+            if not ks:
+                break
+            n = ks[0]
+        return n
 
     def e_UnaryOperator(self, n):
         a = kids(n)[0]
@@ -888,7 +937,7 @@ class FnEmitter:
                 ct = self.ct(n)
             except Unsupported:
                 return call
-            if self.ty.kind(ct) == 'value' and not ct.endswith('*'):
+            if self.ty.is_oomd_struct(ct):
                 return '(*%s)' % call
         return call
 
@@ -1421,7 +1470,17 @@ class FnEmitter:
         self.stmt(kids(n)[0])
 
     def s_GotoStmt(self, n):
-        self.unsupported(n)
+        tgt = self.idx.node.get(n.get('targetLabelDeclId'))
+        name = None
+        if tgt is not None:
+            name = tgt.get('name')
+        if name is None:
+            name = self.labels.get(n.get('targetLabelDeclId'))
+        if name is None:
+            self.unsupported(n, 'goto to unknown label')
+        if any(g for g in self.guards):
+            self.unsupported(n, 'goto across scope guards')
+        self.w('goto %s;' % sanitize(name))
 
     def s_CXXTryStmt(self, n):
         return self.u.exc.try_stmt(self, n)
@@ -1455,7 +1514,7 @@ class FnEmitter:
             self.ret_ct = self.ty.ctype(self.u.desugar_ret(fn, rt))
             self.ret_by_ref = False
             if rt.rstrip().endswith('&') and not rt.rstrip().endswith('&&') and \
-                    self.ty.kind(self.ret_ct) == 'value' and not self.ret_ct.endswith('*'):
+                    self.ty.is_oomd_struct(self.ret_ct):
                 self.ret_ct = self.ret_ct + ' *'
                 self.ret_by_ref = True
         ps = []
@@ -1483,6 +1542,14 @@ class FnEmitter:
                 if c.get('kind') == 'CXXCtorInitializer':
                     self.ctor_init(c)
         b = body[-1]
+        self.labels = {}
+
+        def find_labels(x):
+            if x.get('kind') == 'LabelStmt':
+                self.labels[x.get('declId')] = x.get('name')
+            for c in kids(x):
+                find_labels(c)
+        find_labels(b)
         self.uses_ret = False
         save = self.out
         self.out = []
